@@ -123,6 +123,7 @@ func pullTransfer(w *Wire, o PullOpts, res *PullResult) (*PullResult, error) {
 		return res, err
 	}
 	res.Sorted = res.List.Sorted()
+	w.ListLen = len(res.Sorted)
 	res.Stage = "transfer"
 	order := make([]int, 0, len(res.Sorted))
 	for idx := range res.Sorted {
@@ -330,6 +331,7 @@ func Send(w *Wire, o SendOpts) (res *SendResult, err error) {
 	sorted := append([]Entry(nil), o.Entries...)
 	sort.SliceStable(sorted, func(i, j int) bool { return bytes.Compare([]byte(sorted[i].Name), []byte(sorted[j].Name)) < 0 })
 	res.Sorted = sorted
+	w.ListLen = len(sorted)
 	if o.Unsolicited != nil {
 		for _, u := range o.Unsolicited(sorted, res.Seed) {
 			w.WriteReply(u.Idx, u.Head, u.Toks, u.Sum)
